@@ -38,6 +38,12 @@ void tr(std::string const& s) { if (g_trace) { *g_trace += s; *g_trace += "\n"; 
 // the program's own timer objects live in an arena whose slot order an environment can reverse: same program, same API calls,
 // different relative addresses of the objects (the trace must not depend on memory layout)
 bool g_arena_reverse = false;
+// environment "heapdesc": every operator new of the process - the library's own allocations included (channels, packets, handler
+// storage) - is served from a bump arena that hands out DESCENDING addresses, so the relative address order of any two heap
+// objects is the reverse of the usual one. Same program, same API calls; nothing observable may depend on it.
+bool g_heap_desc = false; alignas(64) char g_desc_buf[96u << 20]; char* g_desc_top = g_desc_buf + sizeof(g_desc_buf);
+inline void* desc_alloc(std::size_t n) { n = (n + 31) & ~std::size_t(15); if (std::size_t(g_desc_top - g_desc_buf) < n) std::abort(); g_desc_top -= n; return g_desc_top; }
+inline bool desc_owns(void* p) { return p >= static_cast<void*>(g_desc_buf) && p < static_cast<void*>(g_desc_buf + sizeof(g_desc_buf)); }
 typedef std::unique_ptr<asio::high_resolution_timer, void (*)(asio::high_resolution_timer*)> timer_ptr;
 timer_ptr arena_timer(asio::io_context& ioc, int& next_slot)
 {
@@ -109,6 +115,16 @@ void run_program(int p, std::string const& pcap)
 		k->a->async_accept(*k->s, *pe, [&, k, pe](error_code const& ec) { error_code e2; H(fmt("tcp%d accept %s peer %s remote %s local %s", k->id, ecs(ec).c_str(), eps(*pe).c_str(), eps(k->s->remote_endpoint(e2)).c_str(), eps(k->s->local_endpoint(e2)).c_str())); if (ec) return; writer(k, false); reader(k, false); });
 		k->c->async_connect(ip::tcp::endpoint(addr("10.0.1.1"), (unsigned short)(6000 + lossy)), [&, k](error_code const& ec) { error_code e2; H(fmt("tcp%d connect %s local %s remote %s", k->id, ecs(ec).c_str(), eps(k->c->local_endpoint(e2)).c_str(), eps(k->c->remote_endpoint(e2)).c_str())); if (ec) return; writer(k, true); reader(k, true); });
 	}
+	// ---- backlog: four connects are queued at one acceptor before the first accept is posted (200 ms in); accepts follow one after the other ----
+	std::unique_ptr<ip::tcp::acceptor> bl_acc; std::vector<std::unique_ptr<ip::tcp::socket>> bl_c, bl_s; std::unique_ptr<asio::high_resolution_timer> bl_t; std::function<void(int)> bl_post; std::vector<std::shared_ptr<ip::tcp::endpoint>> bl_pe;
+	if (p & 128) {
+		bl_acc.reset(new ip::tcp::acceptor(nB)); bl_acc->open(ip::tcp::v4()); bl_acc->bind(ip::tcp::endpoint(addr("10.0.1.1"), 6100)); bl_acc->listen();
+		for (int i = 0; i < 4; ++i) { bl_c.emplace_back(new ip::tcp::socket(i % 2 ? nA2 : nA)); bl_s.emplace_back(new ip::tcp::socket(nB)); bl_pe.push_back(std::make_shared<ip::tcp::endpoint>());
+			bl_c.back()->open(ip::tcp::v4()); bl_c.back()->bind(ip::tcp::endpoint(addr(i % 2 ? "10.0.0.2" : "10.0.0.1"), (unsigned short)(4100 + i)));
+			bl_c.back()->async_connect(ip::tcp::endpoint(addr("10.0.1.1"), 6100), [&, i](error_code const& ec) { H(fmt("backlog connect %d %s", i, ecs(ec).c_str())); }); }
+		bl_post = [&](int i) { if (i >= 4) return; bl_acc->async_accept(*bl_s[size_t(i)], *bl_pe[size_t(i)], [&, i](error_code const& ec) { H(fmt("backlog accept %d %s peer %s", i, ecs(ec).c_str(), eps(*bl_pe[size_t(i)]).c_str())); if (!ec) bl_post(i + 1); }); };
+		bl_t.reset(new asio::high_resolution_timer(nB)); bl_t->expires_after(ms(200)); bl_t->async_wait([&](error_code const&) { bl_post(0); });
+	}
 	// ---- UDP burst through the 10 kB outgoing queue of 10.0.0.1 (tail drops) ----
 	std::unique_ptr<ip::udp::socket> ua, ub; std::vector<char> ubuf(2000); ip::udp::endpoint ufrom; std::function<void()> urecv;
 	if (p & 8) {
@@ -138,7 +154,9 @@ void run_program(int p, std::string const& pcap)
 	// clean up in the documented order
 	error_code ig; if (ub) ub->cancel(ig);
 	for (auto& k : conns) { k->c->close(ig); k->s->close(ig); k->a->close(ig); }
+	for (auto& x : bl_c) x->close(ig); for (auto& x : bl_s) x->close(ig); if (bl_acc) bl_acc->close(ig);
 	if (!special_stop) sim.run();
+	bl_t.reset(); bl_c.clear(); bl_s.clear(); bl_acc.reset();
 	res.reset(); ua.reset(); ub.reset(); conns.clear(); tm.clear(); cfg_timer.reset();
 }
 
@@ -163,6 +181,7 @@ std::string emit(int p, std::string const& envname, std::string const& scratch)
 	if (envname == "stack00") dirty_stack(0x00);
 	if (envname == "stackff") dirty_stack(0xff);
 	g_arena_reverse = envname == "arenarev";
+	struct DescGuard { bool on; explicit DescGuard(bool b) : on(b) { if (on) { g_desc_top = g_desc_buf + sizeof(g_desc_buf); g_heap_desc = true; } } ~DescGuard() { if (on) g_heap_desc = false; } } desc_guard(envname == "heapdesc");
 	if (envname == "twice") traced_run(p, pcap);
 	if (envname.compare(0, 4, "pred") == 0) traced_run(std::atoi(envname.c_str() + 4), pcap + ".pred");
 	std::string t = traced_run(p, pcap);
@@ -176,7 +195,7 @@ std::vector<EnvSpec> envs(bool thorough)
 	std::vector<EnvSpec> e = {
 		{ "baseline", "", false }, { "fill00", "malloc_fill_byte=0:max_malloc_fill_size=1048576", false }, { "fill5a", "malloc_fill_byte=90:max_malloc_fill_size=1048576", false },
 		{ "filla5", "malloc_fill_byte=165:max_malloc_fill_size=1048576", false }, { "fillff", "malloc_fill_byte=255:max_malloc_fill_size=1048576", false },
-		{ "heapA", "", false }, { "heapB", "", false }, { "arenarev", "", false }, { "stack00", "", false }, { "stackff", "", false }, { "noaslr", "", true },
+		{ "heapA", "", false }, { "heapB", "", false }, { "heapdesc", "", false }, { "arenarev", "", false }, { "stack00", "", false }, { "stackff", "", false }, { "noaslr", "", true },
 		{ "twice", "", false }, { "pred63", "", false }, { "pred1000", "", false }, { "pred1001", "", false },
 		{ "clock+11y", "", false, "350000000" }, { "clock-1d", "", false, "-86400" } };
 	if (thorough) for (const char* n : { "pred1", "pred6", "pred8", "pred16", "pred36", "pred27" }) e.push_back(EnvSpec{ n, "", false });
@@ -203,6 +222,7 @@ struct DetEngine : Engine
 	uint64_t units(Args const& a) override
 	{
 		progs.clear(); for (int p = 1; p < 128; ++p) if (p < 64 || (p & 14)) progs.push_back(p);
+		for (int q : { 0, 1, 2, 6, 8, 16, 32, 2 + 8 + 16 }) progs.push_back(128 + q); // with a backlog of queued connects
 		char b[4096]; ssize_t n = ::readlink("/proc/self/exe", b, sizeof b - 1); self.assign(b, n > 0 ? size_t(n) : 0);
 		(void)a; return progs.size();
 	}
@@ -253,5 +273,13 @@ struct DetEngine : Engine
 };
 
 } // namespace
+
+
+void* operator new(std::size_t n) { if (g_heap_desc) return desc_alloc(n); void* p = std::malloc(n ? n : 1); if (!p) throw std::bad_alloc(); return p; }
+void* operator new[](std::size_t n) { return operator new(n); }
+void operator delete(void* p) noexcept { if (p && !desc_owns(p)) std::free(p); }
+void operator delete[](void* p) noexcept { operator delete(p); }
+void operator delete(void* p, std::size_t) noexcept { operator delete(p); }
+void operator delete[](void* p, std::size_t) noexcept { operator delete(p); }
 
 int main(int argc, char** argv) { DetEngine e; return engine_main(argc, argv, e); }
